@@ -138,7 +138,7 @@ fn inline_section(b: &Bounds) -> Stats {
                         st.nontrivial(&(kind, &items));
                         judge_inline(kind, &items, &out)
                     }
-                    Err(t) => Err(Problem { class: "inline-failure", text: t }),
+                    Err(t) => Err(Problem { class: "inline-failure", text: t, who: "" }),
                 };
                 if let Err(p) = res
                     && found.is_none()
@@ -181,6 +181,7 @@ fn run_multi(states: &[HookState], ch: &mut Chooser, st: &mut Stats, verbose: bo
         return Err(Problem {
             class: "tick-released-nothing",
             text: format!("a tick was run (hooks able to release: {cans:?}) but no hook released a new item or snapshot: {:?}", obs.outs),
+            who: "",
         });
     }
     Ok(())
@@ -248,8 +249,11 @@ fn multi_section(b: &Bounds, idle_only: bool) -> Stats {
                 let _ = &idle;
                 let key = if idle_only {
                     format!("C36/run_hooks/passthrough-idle/{}", p.class)
+                } else if !p.who.is_empty() {
+                    format!("C36/run_hooks/{}/{}", p.class, p.who)
                 } else {
-                    format!("C36/run_hooks/{}/{:?}", p.class, states.iter().map(|s| s.kind.name()).collect::<Vec<_>>())
+                    let kinds: BTreeSet<&str> = states.iter().map(|s| s.kind.name()).collect();
+                    format!("C36/run_hooks/{}/{:?}", p.class, kinds)
                 };
                 st.violation(
                     key,
@@ -269,7 +273,7 @@ fn multi_section(b: &Bounds, idle_only: bool) -> Stats {
 
 /// C36 oracle over the tick outputs of one simulated execution that ran to quiescence.
 pub fn judge_obs(lanes: &[(u32, LaneSpec)], obs: &Obs) -> Result<(), Problem> {
-    let bad = |class: &'static str, text: String| Err(Problem { class, text });
+    let bad = |class: &'static str, text: String| Err(Problem { class, text, who: "" });
     let mut delivered: Vec<Vec<u32>> = lanes.iter().map(|_| vec![]).collect();
     let mut last: Vec<Option<Vec<u32>>> = lanes.iter().map(|_| None).collect();
     for (t, tick) in obs.iter().enumerate() {
@@ -368,8 +372,8 @@ pub fn judge_obs(lanes: &[(u32, LaneSpec)], obs: &Obs) -> Result<(), Problem> {
 fn judge_run(e: &Entry, run: &crate::simrun::Run) -> Result<(), Problem> {
     match (&run.verdict, &run.obs) {
         (Verdict::Ok, Some(obs)) => judge_obs(&e.lanes, obs),
-        (Verdict::Panic(m), _) => Err(Problem { class: "panic", text: format!("simulation instance panicked: {m}") }),
-        (v, _) => Err(Problem { class: "no-observation", text: format!("instance ended with {v:?} without an observation") }),
+        (Verdict::Panic(m), _) => Err(Problem { class: "panic", text: format!("simulation instance panicked: {m}"), who: "" }),
+        (v, _) => Err(Problem { class: "no-observation", text: format!("instance ended with {v:?} without an observation"), who: "" }),
     }
 }
 
@@ -412,6 +416,11 @@ pub fn program_job(name: &str, n: usize) -> Stats {
 fn program_section(b: &Bounds, names: &[&str]) -> Stats {
     // the last program is known to bring the simulator down on the unchanged tree: alone
     let specs: Vec<Value> = names.iter().map(|n| json!({"program": n, "n": b.prog_n, "solo": *n == "batch_and_hooked_fold_snapshot"})).collect();
+    if crate::jobs::skip_programs() {
+        let mut st = Stats::new();
+        st.cap("program level skipped on request (VF_SIM1_SKIP_PROGRAMS)");
+        return st;
+    }
     let (st, lines) = crate::jobs::run_programs("c36prog", &specs, "C36/prog");
     for l in lines {
         println!("{l}");
@@ -483,7 +492,7 @@ pub fn replay(case: &Value) -> bool {
             println!("replay: {} over lanes {items:?} -> {r:?}", kind.name());
             match r {
                 Ok(out) => judge_inline(kind, &items, &out),
-                Err(t) => Err(Problem { class: "inline-failure", text: t }),
+                Err(t) => Err(Problem { class: "inline-failure", text: t, who: "" }),
             }
         }
         "run_hooks" => {
